@@ -219,6 +219,17 @@ class CheckpointedResult:
 CHECKPOINT_NOT_FOUND = CheckpointedResult.create_not_found()
 
 
+_COMPLETED_STATUSES = frozenset(
+    {
+        OperationStatus.SUCCEEDED,
+        OperationStatus.FAILED,
+        OperationStatus.CANCELLED,
+        OperationStatus.STOPPED,
+        OperationStatus.TIMED_OUT,
+    }
+)
+
+
 class ReplayStatus(Enum):
     """Status indicating whether execution is replaying or executing new operations."""
 
@@ -315,14 +326,10 @@ class ExecutionState:
                     op_id
                     for op_id, op in self.operations.items()
                     if op.operation_type != OperationType.EXECUTION
-                    and op.status
-                    in {
-                        OperationStatus.SUCCEEDED,
-                        OperationStatus.FAILED,
-                        OperationStatus.CANCELLED,
-                        OperationStatus.STOPPED,
-                        OperationStatus.TIMED_OUT,
-                    }
+                    and op.status in _COMPLETED_STATUSES
+                    # operations inside a completed context are never visited again:
+                    # the context returns its checkpointed result without running its body
+                    and not self._is_inside_completed_context(op)
                 }
                 if completed_ops.issubset(self._visited_operations):
                     logger.debug(
@@ -330,6 +337,24 @@ class ExecutionState:
                         operation_id,
                     )
                     self._replay_status = ReplayStatus.NEW
+
+    def _is_inside_completed_context(self, operation: Operation) -> bool:
+        """True if an ancestor context completed and will be returned from its checkpoint (not re-run)."""
+        parent_id = operation.parent_id
+        while parent_id:
+            parent = self.operations.get(parent_id)
+            if parent is None:
+                return False
+            if (
+                parent.operation_type == OperationType.CONTEXT
+                and parent.status in _COMPLETED_STATUSES
+                and not (
+                    parent.context_details and parent.context_details.replay_children
+                )
+            ):
+                return True
+            parent_id = parent.parent_id
+        return False
 
     def is_replaying(self) -> bool:
         """Check if execution is currently in replay mode.
